@@ -7,6 +7,7 @@ import (
 	"fmt"
 	"os"
 	"sort"
+	"strconv"
 	"strings"
 	"testing"
 	"testing/synctest"
@@ -152,6 +153,7 @@ func RunPlan(t *testing.T, plan *Plan, keepPlan bool) *Result {
 			}
 		}()
 		synctest.Test(t, func(t *testing.T) {
+			simrt.PanicHook = nil
 			e.Execute(t, plan, res)
 		})
 	}()
@@ -189,6 +191,9 @@ func finish(res *Result, r simrt.Result, s *simrt.Sim) {
 
 // Main is the process entry point, called from TestSim.
 func Main(t *testing.T, engine, profile, tier string, seed uint64, count int, planFile, outFile string, keepPlan bool, trace string, inject string) {
+	if v, err := strconv.Atoi(os.Getenv("VERIF_TRACE_DEPTH")); err == nil && v > 0 {
+		simrt.TraceDepth = v
+	}
 	var out *os.File = os.Stdout
 	if outFile != "" {
 		f, err := os.OpenFile(outFile, os.O_CREATE|os.O_WRONLY|os.O_APPEND, 0644)
